@@ -478,12 +478,25 @@ def tie_accept_loop(case: dict[str, Any]) -> dict[str, Any]:
     return {"outcome": out, "calls": calls}
 
 
+def tie_sort_preserving(case: dict[str, Any]) -> dict[str, Any]:
+    """Real update.sort_messages_preserving_file_order on generated message lines."""
+    from mypy.server.update import sort_messages_preserving_file_order
+    msgs = [m["text"] for m in case["messages"]]
+    try:
+        res = sort_messages_preserving_file_order(list(msgs), list(case["prev"]))
+    except IndexError:
+        return {"result": "IndexError"}
+    # map back to identities (texts are unique by construction)
+    idx = {t: i for i, t in enumerate(msgs)}
+    return {"result": [idx[t] for t in res]}
+
+
 def tie_main() -> None:
     data = json.load(sys.stdin)
     cache_dir = tempfile.mkdtemp(prefix="c20-tie-cache-")
     out: dict[str, list[Any]] = {}
     try:
-        for kind, fn in (("top", tie_semanal_top), ("fn", tie_semanal_fn), ("prop", tie_propagate), ("msg", tie_messages), ("al", tie_accept_loop)):
+        for kind, fn in (("top", tie_semanal_top), ("fn", tie_semanal_fn), ("prop", tie_propagate), ("msg", tie_messages), ("al", tie_accept_loop), ("sp", tie_sort_preserving)):
             out[kind] = []
             for c in data.get(kind, []):
                 try:
@@ -1541,7 +1554,7 @@ def command_of(job: dict[str, Any]) -> str:
 
 CASES_HEADER = r"""From Coq Require Import List Arith Bool ZArith.
 From Gen Require Import Bounds.
-From C20 Require Import Model AcceptLoop.
+From C20 Require Import Model AcceptLoop SortPreserving.
 Import ListNotations.
 Definition oc (o : Outcome) : nat := match o with Done => 0 | ReportedHang => 1 | AssertFail => 2 | RaisedRuntimeError => 3 end.
 Definition b2n (b : bool) : nat := if b then 1 else 0.
@@ -1569,6 +1582,7 @@ Definition run_al script po wo := match accept_loop nat (scripted_al script) al_
 Definition zn (z : Z) : nat := Z.to_nat (z + 10).
 Definition on (o : option nat) : nat := match o with None => 0 | Some x => S x end.
 Definition rl {A} (f : A -> list nat) (r : R A) : list nat := match r with Ok a => 0 :: f a | IndexError => [1] | OutOfFuel => [2] end.
+Definition run_sp order l := rl (map m_id) (sort_preserving order l).
 Definition enc_item (i : Item) : list nat := match i with
   | ImportNote p l f c => [1; p; zn l; b2n f; b2n c] | CtxNote t f => [2; on t; on f] | Msg id => [3; id] end.
 Definition msg_case (show : bool) (L : list ErrorInfo) (nlines : nat) : list (list nat) :=
@@ -1702,7 +1716,33 @@ def stage_C(ctx: vlib.Ctx) -> None:
     for sc in al_scripts:
         last = sc[-1]
         al_cases.append({"po": rng.choice([0, 0, 1, 2]), "wo": rng.choice([0, 0, 1]), "script": sc + [(last[0], False, last[2])] * (26 - min(len(sc), 25))})
-    payload = {"top": top_cases, "fn": fn_cases, "ck": ck_cases, "prop": pr_cases, "msg": msg_cases, "al": al_cases}
+    # daemon message ordering: files f1..f4 (ids 1..4); prev mentions a subset in some order; lines of every kind the function distinguishes
+    sp_cases = []
+    for _ in range(ctx.n(250, 2000)):
+        known = rng.sample([1, 2, 3, 4], rng.randint(0, 4))
+        prev = [f"f{k}.py:{rng.randint(1, 9)}: error: old" for k in known for _r in range(rng.choice([1, 1, 2]))]
+        if rng.random() < 0.3:
+            prev.insert(rng.randrange(len(prev) + 1), "    continuation in prev")
+        mm = []
+        for j in range(rng.choice([0, 1, 2, 3, 4, 6, 9])):
+            r_ = rng.random()
+            k = rng.randint(1, 4)
+            if r_ < 0.45:
+                mm.append({"text": f"f{k}.py:{j}: {rng.choice(['error', 'note'])}: m{j}", "pf": k, "hasf": True, "mypy": False})
+            elif r_ < 0.7:
+                mm.append({"text": f"    continuation {j}", "pf": 100 + j, "hasf": False, "mypy": False})
+            elif r_ < 0.8:
+                mm.append({"text": f"mypy: note {j}", "pf": 50, "hasf": False, "mypy": True})
+            elif r_ < 0.9:
+                mm.append({"text": f"f{k}.py: error: no line number {j}", "pf": k, "hasf": False, "mypy": False})
+            else:
+                mm.append({"text": f"zz{j}.py:1: error: new file", "pf": 200 + j, "hasf": True, "mypy": False})
+        order = []
+        for k in known:
+            if k not in order:
+                order.append(k)
+        sp_cases.append({"prev": prev, "messages": mm, "order": order})
+    payload = {"top": top_cases, "fn": fn_cases, "ck": ck_cases, "prop": pr_cases, "msg": msg_cases, "al": al_cases, "sp": sp_cases}
     p = subprocess.run([vlib.PY, os.path.abspath(__file__), "--tie"], input=json.dumps(payload), text=True, capture_output=True,
                        env=vlib.py_env(), timeout=3000)
     if p.returncode != 0:
@@ -1737,6 +1777,10 @@ def stage_C(ctx: vlib.Ctx) -> None:
     for i, c in enumerate(al_cases):
         exprs.append("run_al " + coq_list([f"({a}, {cb(b)}, {w})" for a, b, w in c["script"]]) + f" {c['po']} {c['wo']}")
         tag.append(("al", i))
+    for i, c in enumerate(sp_cases):
+        exprs.append("run_sp " + coq_list([str(k) for k in c["order"]]) + " " +
+                     coq_list([f"(mkM {j} {m_['pf']} {cb(m_['hasf'])} {cb(m_['mypy'])})" for j, m_ in enumerate(c["messages"])]))
+        tag.append(("sp", i))
     for i, c in enumerate(msg_cases):
         L = coq_list([coq_errinfo(j, e) for j, e in enumerate(c["errors"])])
         exprs.append(f"msg_case {cb(c['show_ctx'])} {L} {c['nlines']}")
@@ -1775,6 +1819,12 @@ def stage_C(ctx: vlib.Ctx) -> None:
                 mism(kind, i, "outcome/call trace differ", c, m, r)
             stats[f"{kind}:{r['outcome']}"] = stats.get(f"{kind}:{r['outcome']}", 0) + 1
             nontriv += r["outcome"] != "Done" or len(r["calls"]) > len(c.get("scc", [0]))
+        elif kind == "sp":
+            want_sp = [1] if r["result"] == "IndexError" else [0] + r["result"]
+            if m != want_sp:
+                mism(kind, i, "sort_messages_preserving_file_order differs", sp_cases[i], m, r)
+            stats["sp:ok"] = stats.get("sp:ok", 0) + 1
+            nontriv += isinstance(r["result"], list) and r["result"] != sorted(r["result"])
         elif kind == "al":
             calls = [x for it_, po_ in r["calls"] for x in (it_, po_)]
             if m == [[9]] or m[0][0] != OUTC.get(r["outcome"], 99) or m[1] != calls or m[0][1] != len(r["calls"]):
@@ -1841,7 +1891,7 @@ def stage_C(ctx: vlib.Ctx) -> None:
                 mism(kind, i, "pretty IndexError does not coincide with 'error line beyond the last source line'", c, m, r)
     ctx.add("evaluations", len(exprs))
     ctx.add("traces_validated_against_impl", len(exprs) - bad)
-    ctx.cov["tie_cases"] = {"top": len(top_cases), "fn": len(fn_cases), "ck": len(ck_cases), "prop": len(pr_cases), "msg": len(msg_cases), "al": len(al_cases)}
+    ctx.cov["tie_cases"] = {"top": len(top_cases), "fn": len(fn_cases), "ck": len(ck_cases), "prop": len(pr_cases), "msg": len(msg_cases), "al": len(al_cases), "sp": len(sp_cases)}
     ctx.cov["tie_outcomes"] = dict(sorted(stats.items()))
     ctx.cov["tie_nontrivial"] = nontriv
     ctx.sample({"tie": "top", "case": top_cases[700 % len(top_cases)]["script"][:4], "impl": real["top"][700 % len(top_cases)]})
